@@ -144,7 +144,7 @@ func runC01Chain(c *Ctx, a *pqAnchors) {
 					// not also guarded by an earlier index (nested else-if chain): fine
 					n++
 					okShut := false
-					if call, ok := strip(r.Results[0]).(*ssa.Call); ok && isFunc(calleeOf(call), pkgExperr, "NewShutdownErr") {
+					if call, ok := strip(resultsOf(r)[0]).(*ssa.Call); ok && isFunc(calleeOf(call), pkgExperr, "NewShutdownErr") {
 						if ok2, _ := errChainReaches(call.Call.Args[0], isSrc(sendCalls, false), nil); ok2 {
 							okShut = true
 						}
@@ -196,7 +196,7 @@ func runC01Chain(c *Ctx, a *pqAnchors) {
 		})
 		if len(sc) > 0 {
 			for _, r := range returnsOf(fn) {
-				for _, res := range r.Results {
+				for _, res := range resultsOf(r) {
 					if !isErrorType(res.Type()) || isNilConst(res) {
 						continue
 					}
